@@ -1595,3 +1595,61 @@ M("c18-user-str-unguarded", "C18", "R1.user-exception-text-is-guarded", "lambda_
             # recordable; same wording as the traceback module
             message = "<exception str() failed>"
 """, "        message = str(exception)\n", desc="repair of h2_C18 #3 reverted")
+
+# ----------------------------------------------------------------------------- round 6 (after the h2 repairs)
+M2("c12-benign-exponent-in-a-local", "C12", "", [
+    {"file": "retries.py", "old": """            base_delay: float = min(
+                config.initial_delay_seconds
+                * (config.backoff_rate ** (attempts_made - 1)),
+                config.max_delay_seconds,
+            )""", "new": """            exponent = attempts_made - 1
+            growth = config.backoff_rate**exponent
+            base_delay: float = min(
+                config.initial_delay_seconds * growth,
+                config.max_delay_seconds,
+            )"""}], expect="silent")
+M2("c12-exponent-clamped", "C12", "R4.packaged-strategy-shape", [
+    {"file": "retries.py", "old": "                * (config.backoff_rate ** (attempts_made - 1)),", "new": "                * (config.backoff_rate ** min(attempts_made - 1, 32)),"}])
+M("c09-counted-before-published", "C09", "R1.branch-outcome-bookkeeping", "concurrency/executor.py",
+  "            exe_state.complete(result)\n            self.counters.complete_task()\n", "            self.counters.complete_task()\n            exe_state.complete(result)\n")
+M("c18-strategy-str-unguarded", "C18", "R1.user-exception-text-is-guarded", "retries.py",
+  """        try:
+            error_message = str(error)
+        except Exception:  # noqa: BLE001
+            # a user exception class with a broken __str__: the step must still get its RETRY or
+            # FAIL record (same text as ErrorObject.from_exception records)
+            error_message = "<exception str() failed>"
+""", "        error_message = str(error)\n", desc="repair 276483a reverted")
+M("c07-benign-resubmit-guard-reordered", "C07", "", "concurrency/executor.py",
+  "                if to_resubmit is not None and not self._shutdown.is_set():", "                if not self._shutdown.is_set() and to_resubmit is not None:", expect="silent")
+M("c06-inner-handler-swallows-page-error", "C06", "R1.handler-covers-every-service-call", "state.py",
+  """                    self.fetch_paginated_operations(
+                        output.new_execution_state.operations,
+                        output.checkpoint_token,
+                        output.new_execution_state.next_marker,
+                    )
+""", """                    try:
+                        self.fetch_paginated_operations(
+                            output.new_execution_state.operations,
+                            output.checkpoint_token,
+                            output.new_execution_state.next_marker,
+                        )
+                    except Exception:  # noqa: BLE001
+                        logger.warning("could not read the remaining pages")
+""")
+M("c06-stop-writes-the-failure-slot", "C06", "R2.failure-slot-written-by-the-consumer-only", "state.py",
+  "        self._checkpointing_stopped.set()\n\n    def _collect_checkpoint_batch",
+  "        self._checkpointing_stopped.set()\n        self._checkpointing_failed.set(BackgroundThreadError(\"stopped\", CheckpointingStoppedError(\"stopped\")))\n\n    def _collect_checkpoint_batch")
+M("c07-branch-rerun-in-place-on-zero-delay", "C07", "R3.suspension-reaches-its-handler", "concurrency/executor.py",
+  "        finally:\n            child_context.state.track_replay(operation_id=operation_id)\n        return result",
+  "        except TimedSuspendExecution as tse:\n            if tse.scheduled_timestamp > time.time():\n                raise\n            return self._execute_item_in_child_context(executor_context, executable)\n        finally:\n            child_context.state.track_replay(operation_id=operation_id)\n        return result")
+M("c19-only-exceptions-break-the-lock", "C19", "R4.exceptional-exit-breaks-and-wakes-all", "threading.py",
+  "        if exc_type is not None:", "        if isinstance(exc_val, Exception):")
+M2("c20-decode-cache", "C20", "R6.codec-function-depends-on-its-argument-only", [
+    {"file": "lambda_service.py", "old": "@dataclass(frozen=True)\nclass Operation:", "new": "_DECODED: dict = {}\n\n\n@dataclass(frozen=True)\nclass Operation:"},
+    {"file": "lambda_service.py", "old": "        # Make a copy to avoid modifying the original data\n        data_copy = copy.deepcopy(data)\n",
+     "new": "        if (hit := _DECODED.get(data.get(\"Id\"))) is not None:\n            return hit\n        # Make a copy to avoid modifying the original data\n        data_copy = copy.deepcopy(data)\n"}])
+M2("c15-encoder-loses-a-frame", "C15", "R12.decoder-reaches-every-depth-the-encoder-accepts", [
+    {"file": "serdes.py", "old": "TypeTag.LIST, [self._wrap(v, self.dispatcher) for v in obj]", "new": "TypeTag.LIST, [self.dispatcher.encode(v) for v in obj]"}])
+M("c12-interrupted-attempt-reported-as-first", "C12", "R1.attempt-number", "operation/step.py",
+  "        retry_decision: RetryDecision = retry_strategy(error, retry_attempt + 1)", "        retry_decision: RetryDecision = retry_strategy(error, 1)")
